@@ -97,8 +97,9 @@ def holdForAux : Nat → Builder → Nat → R Builder
 
 def holdFor (b : Builder) (ms : Nat) : R Builder := holdForAux (ms / Gen.builderMaxDurationMsec + 2) b ms
 
-/-- `sb_trajectory_init_from_builder` : the trajectory takes the bytes, the builder restarts with its header byte -/
+/-- `sb_trajectory_init_from_builder` : the trajectory takes the bytes, the builder restarts with its header byte,
+at the origin (as after `init`) -/
 def finish (b : Builder) : Bytes × Builder :=
-  (b.buf, { b with buf := b.buf.take 1 ++ List.replicate (Gen.builderHeaderLength - 1) 0 })
+  (b.buf, { b with buf := b.buf.take 1 ++ List.replicate (Gen.builderHeaderLength - 1) 0, last := ⟨0, 0, 0, 0⟩ })
 
 end Sb.Builder
